@@ -27,11 +27,11 @@ PROPS = {
     },
     "C03": {
         "level": "exploration",
-        "steps": [("hv", "C03x", {}), ("hv", "C03s", {"_scale": 0.5}), ("hv", "wasmapi", {}), ("py", "c08", "run_for_c03"), ("py", "san", "miri", "thorough_only")],
+        "steps": [("hv", "C03x", {}), ("hv", "C03s", {"_scale": 0.5}), ("hv", "wasmapi", {}), ("py", "c08", "run_for_c03"), ("py", "livefix", "run_c03"), ("py", "san", "miri", "thorough_only")],
         "rule": "(a) exhaustive edit primitive: all texts of length 0..5 over {a,b,c} x all spans x Replace(len 0..3)/InsertAfter(len 0..2)/Remove "
                 "against an independent splice; (b) every lint and suggestion produced by the C01 document stream: span inside text, apply == "
                 "reference splice; (c) the JS API: every suggestion of every lint of harper_wasm::Linter::lint applied through Linter::apply_suggestion on multi-byte texts whose "
-                "last lint touches the end of the text; (d) harper-ls: published ranges and quick-fix text edits decoded with an independent UTF-16 position model against the lint's characters and the reference splice; non-trivial = lint with >= 1 suggestion not at offset 0; distinct = hash(message, flagged text)",
+                "last lint touches the end of the text; (d) harper-ls: published ranges and quick-fix text edits decoded with an independent UTF-16 position model against the lint's characters and the reference splice; (e) harper-ls while the text changes: code actions fired around the moment a didChange (one or several content changes) is processed must be exactly the quiet answer for the old or for the new text, and a version's diagnostics are the same however it was sent; non-trivial = lint with >= 1 suggestion not at offset 0; distinct = hash(message, flagged text)",
         "assumptions": ["does not judge whether a suggestion is linguistically right"],
     },
     "C04": {
@@ -78,21 +78,21 @@ PROPS = {
     },
     "C08": {
         "level": "exploration",
-        "steps": [("py", "c08", "run")],
+        "steps": [("py", "c08", "run"), ("py", "livefix", "run_c08")],
         "rule": "documents in 8 language ids with astral / combining characters, tabs, LF and CRLF, with and without trailing newline, lints on first and last line, empty lines; for each, code "
                 "actions are requested at every position of every line; the lints revealed by the HarperIgnoreLint commands (char span + suggestions) are cross-checked with the published "
                 "ranges and the returned text edits through an independent char<->UTF-16 position model and a reference splice; lints whose message names what they flagged (spelling, repeated "
-                "word, indefinite article) must cover exactly those characters of the text the client sent (documents also start with U+FEFF / zero-width characters); evaluations = positions probed; "
+                "word, indefinite article) must cover exactly those characters of the text the client sent (documents also start with U+FEFF / zero-width characters); live editing: one open document is driven through versions of one text with other line structure, code action requests are fired before / right behind the reply to the configuration pull that starts the didChange handler and each answer must equal the quiet answer for the old or the new text at that position, and every version's diagnostics are the same whether it was the only or the last of several content changes; evaluations = positions probed; "
                 "non-trivial = document with >= 1 lint; distinct = (language, #lints, multi-byte?, CRLF?, trailing newline?, text hash)",
         "assumptions": ["the lint JSON in the HarperIgnoreLint command is the server's own lint (that is what it executes when the user ignores it)"],
     },
     "C09": {
         "level": "exploration",
-        "steps": [("py", "c09", "run")],
+        "steps": [("py", "c09", "run"), ("py", "livefix", "run_c09")],
         "rule": "histories over three documents (saved file, Markdown file, untitled buffer) of didOpen / didChange / didSave / didClose / add-to-dictionary / didChangeConfiguration / "
                 "didChangeWatchedFiles(Deleted), checked after every step at quiescence (publishes counted, no configuration request outstanding); batches of 2-4 didChange sent back-to-back "
                 "with all workspace/configuration replies held and then released in a chosen permutation (quick: sampled, thorough: enumerated), the completion order read back from the "
-                "publishes; expected = reference server on the newest client text under current dictionaries / settings; distinct = history shapes + (batch size, reply order) schedules realised",
+                "publishes; expected = reference server on the newest client text under current dictionaries / settings; didChange notifications with several content changes (the last one is the text) and code actions requested while a change is in flight (answer = quiet answer for the old or the new text); distinct = history shapes + (batch size, reply order) schedules realised",
         "assumptions": ["interleavings at await points other than the configuration round-trip (file I/O completion) are sampled by repetition, not controlled",
                         "reference = long-lived per-environment reference server, audited every 12th query against a fresh single-shot server"],
     },
